@@ -13,7 +13,7 @@ from lib.vlib import gN, gnat, gbool, glist, gbytes, gpair
 HDR = "From SioV Require Import Base.Conc Sio.Pipeline Sio.PipelineCheck Sio.PipelineConn Sio.PipelineConnCheck.\n"
 KEY = "handler-entry-order:dispatch-goroutines"
 KEYW = "connect-window-order:emit-between-connected-and-flush"
-THEOREMS = ["C02_wire_order", "C02_wire_complete", "C02_reassembly", "C02_reassembly_complete",
+THEOREMS = ["C02_upgrade_wire_order", "C02_upgrade_reassembly", "C02_wire_order", "C02_wire_complete", "C02_reassembly", "C02_reassembly_complete",
             "C02_dispatch_exactly_once", "C02_handler_entry_order_partial"]
 
 
@@ -355,6 +355,11 @@ def run(ctx):
         lap("wire/burst")
         wire_suite(ctx, vh, "paced", ["-seed", seed + 1, "-n", 6, "-emitters", 4, "-burst", 30, "-pace", 40000, "-par", 6])
         lap("wire/paced")
+        # emitters already running while the transport is upgraded (server -> raw client): the packets
+        # parked in the polling transport are handed over to the websocket while the emitters go on
+        wire_suite(ctx, vh, "upgrading", ["-seed", seed + 6, "-n", 6, "-dirs", "s2c", "-transports", "upgrading",
+                                          "-emitters", 8, "-burst", 150, "-pace", 100, "-par", 3])
+        lap("wire/upgrading")
         handler_suite(ctx, vh, "burst", ["-seed", seed + 2, "-n", 18, "-burst", 60, "-par", 6])
         lap("handler")
         conn_suite(ctx, vh, "race", ["-seed", seed + 3, "-n", 12, "-emitters", 8, "-burst", 100, "-par", 3])
@@ -366,6 +371,8 @@ def run(ctx):
     else:
         wire_suite(ctx, vh, "burst", ["-seed", seed, "-n", 144, "-burst", 40, "-par", 6])
         wire_suite(ctx, vh, "paced", ["-seed", seed + 1, "-n", 12, "-emitters", 8, "-burst", 60, "-pace", 40000, "-par", 6])
+        wire_suite(ctx, vh, "upgrading", ["-seed", seed + 6, "-n", 24, "-dirs", "s2c", "-transports", "upgrading",
+                                          "-emitters", 8, "-burst", 150, "-pace", 100, "-par", 3])
         handler_suite(ctx, vh, "burst", ["-seed", seed + 2, "-n", 72, "-burst", 150, "-par", 6])
         conn_suite(ctx, vh, "race", ["-seed", seed + 3, "-n", 48, "-emitters", 8, "-burst", 100, "-par", 3])
         conn_suite(ctx, vh, "window", ["-seed", seed + 4, "-n", 12, "-emitters", 3, "-burst", 20, "-window", "-par", 4])
